@@ -308,12 +308,18 @@ def execute(sc, choices=None, lenient=False):
                     c['sleeps'] += 1
                     info['sleeps'] += 1
                     ab_stamp = abandon_stamp.get(si)
-                    if ab_stamp is not None and ab_stamp < c.get('consume_begin', 0):
-                        # the error was recorded before this consume attempt
-                        # even began, yet the stream waits again
-                        violations.append(['C13', 'waits-after-failure',
-                                           'stream %d started another wait of %.6f s although its '
-                                           'transfer had already failed' % (si, d), {}])
+                    if ab_stamp is not None and sim.stamp() > ab_stamp:
+                        # The failure may land between the stream's look at the
+                        # transfer's exception and the wait that follows, so ONE
+                        # wait may still start after it (wherever the library has
+                        # scheduling points in between); a second one means the
+                        # stream keeps waiting instead of raising the error
+                        c['waits_after_failure'] = c.get('waits_after_failure', 0) + 1
+                        if c['waits_after_failure'] >= 2:
+                            violations.append(['C13', 'waits-after-failure',
+                                               'stream %d started a second wait (%.6f s) after its '
+                                               'transfer had failed instead of raising the error'
+                                               % (si, d), {}])
                     ab = sc['streams'][si].get('abandon')
                     if ab is not None and c['sleep_no'] == ab['sleep_no'] and \
                             coords[si].exception is None:
